@@ -126,8 +126,9 @@ func (i *Interpreter) eval(expr ast.Expr, env *environment.Environment, isRepl b
 	case *ast.ObjectLiteral:
 		properties := make(map[string]interface{})
 
-		for key, valueExpr := range e.Properties {
-			value, signal := i.eval(valueExpr, env, isRepl)
+		// Evaluate the property values in source order
+		for _, key := range e.Keys {
+			value, signal := i.eval(e.Properties[key], env, isRepl)
 			if signal.Type != ControlFlowNone {
 				return nil, signal
 			}
